@@ -166,6 +166,12 @@ func Start(id, level string) *Run {
 			r.Seed = v
 		}
 	}
+	switch level {
+	case "exploration", "fault_enumeration", "model_checking", "proof", "translation_validation", "other":
+	default:
+		// differential testing against a reference model etc. are all "exploration" in the evidence schema
+		r.Level = "exploration"
+	}
 	r.known = loadKnown()
 	return r
 }
